@@ -8,7 +8,7 @@ from .c01 import make_listener, make_connector, reply_ok
 
 ID = "C04"
 BUDGET = {"quick": 45, "thorough": 700}
-MAX_RUNS = {"quick": 1500, "thorough": 300000}
+MAX_RUNS = {"quick": 8000, "thorough": 300000}
 TECHNIQUE = "deterministic simulation with fault injection: FIN/RST injected at seeded byte offsets with data in flight, same absolute oracle in buffered and splice(2) I/O modes (differential by construction)"
 RULE = ("plans: listener (http/https/socks5/socks4/reverse) x connector (direct/http/socks5/https) x io mode (in-memory buffered; kernel-lane buffered; "
         "kernel-lane splice) x close script (client half-close then origin keeps sending; origin half-close then client keeps sending; simultaneous FIN; "
